@@ -30,6 +30,10 @@ type c08Case struct {
 	InjectAt int    // sync index (after the first spec change) at which a second spec change arrives; -1 = none
 	Change1  string // first change: "tpl" (template only) or "tpl+scaledown" (template and one replica less, in one edit)
 	Change2  string // second change: "tpl", "scaledown", "scaleup"
+	// ObsGen: what the children's own controller reports as status.observedGeneration: "" its generation,
+	// "zero" a literal 0 (a field it serialises but does not maintain), "absent" nothing. Such a child is up to
+	// date and passes its status checks all the same.
+	ObsGen string
 }
 
 // rollWorld is shared by C07/C08/C09.
@@ -44,6 +48,7 @@ type rollWorld struct {
 	puid   string
 	checks bool
 	opt    ccOpt
+	obsGen string
 }
 
 // rollHookDesc: the hook lists its children highest ordinal first (as a StatefulSet-like hook does on updates)
@@ -136,8 +141,17 @@ func (x *rollWorld) fair() {
 		for _, o := range x.Sim.All(k) {
 			gen, _ := kit.Get(o, "metadata", "generation").(int64)
 			x.Sim.Edit(k, kit.NS(o), kit.Name(o), func(c map[string]interface{}) {
+				og := interface{}(gen)
+				if x.obsGen == "zero" {
+					og = int64(0)
+				}
+				defer func() {
+					if x.obsGen == "absent" {
+						delete(c["status"].(map[string]interface{}), "observedGeneration")
+					}
+				}()
 				c["status"] = map[string]interface{}{
-					"observedGeneration": gen,
+					"observedGeneration": og,
 					// as on a Pod, the checked condition is not the first one in the list
 					"conditions": []interface{}{map[string]interface{}{"type": "Initialized", "status": "True", "reason": "Init"}, map[string]interface{}{"type": "Ready", "status": "True", "reason": "Good"}, map[string]interface{}{"type": "Scheduled", "status": "True", "reason": "Sched"}},
 				}
@@ -267,6 +281,7 @@ func c08Run(c c08Case) []mc.Finding {
 		f = append(f, mc.Finding{Key: "C08:" + key, Msg: fmt.Sprintf("%+v: ", c) + fmt.Sprintf(format, a...)})
 	}
 	x := newRollWorld(c.N, c.Cluster, c.Child, c.Method, c.Checks, c.GenSel)
+	x.obsGen = c.ObsGen
 	// bring the first generation up
 	for i := 0; i < c.N+3; i++ {
 		if err, p, stack := x.round(); err != nil || p != nil {
@@ -464,6 +479,14 @@ func TestVerifC08(t *testing.T) {
 									r.Outcome(c08Outcome)
 									if idx%53 == 0 {
 										r.Sample(c)
+									}
+									if inject < 0 && !scope.cluster {
+										for _, og := range []string{"zero", "absent"} {
+											c2 := c
+											c2.ObsGen = og
+											r.Case(c2, fmt.Sprint(idx)+og, func() []mc.Finding { return c08Run(c2) })
+											r.Outcome(og + ":" + c08Outcome)
+										}
 									}
 								}
 							}
